@@ -942,6 +942,7 @@ func checkC09(ck *Check) {
 		okv := isElemOf(ra.Elem, func(t *Term) bool { return ck.isScaleOptsField(t, listName) })
 		ck.cond(okv, "C09.R2", ra.Key+"/elem", ck.P.instrPos(ra.Site.Call), funcID(ra.Reaper), "deleted nodes come from opts."+listName+" only", ra.Elem.String(), "")
 	}
+	ck.nodeListImmutability("C09.R2")
 	// R3: counting
 	ck.countingArgs("C09.R3")
 	// R4: cordoned list flows only to len
